@@ -466,7 +466,7 @@ func r17NoHiddenGlobalState(c *cx, id string) int {
 			}
 			switch sel.Sel.Name {
 			case "Store", "Put", "LoadOrStore", "Swap", "CompareAndSwap", "Delete":
-				if gname := global(f, sel.X); gname != "" && strings.HasPrefix(f.CalleeID(cl), "sync.") {
+				if gname := global(f, sel.X); gname != "" && strings.HasPrefix(f.CalleeID(cl), "sync") {
 					bad = "calls " + f.CalleeID(cl) + " on " + gname + " at " + f.Prog.Pos(cl.Pos())
 				}
 			}
